@@ -107,7 +107,7 @@ func VerifPoolsFor(reps, advSel, dup int) {
 	var named []string
 	var poolSel []metav1.LabelSelector
 	labA, labB := 0, 0 // pool labels: 0 none, 1 zone=a, 2 zone=b
-	if advSel >= 4 {
+	if advSel == 4 || advSel == 5 {
 		// advSel 4: the advertisements select pools by label (zone=a) and name none; 5: they name pool a
 		// and select by label as well (a pool may be both named and selected)
 		labA, labB = vr.Choose(3), vr.Choose(3)
@@ -130,6 +130,21 @@ func VerifPoolsFor(reps, advSel, dup int) {
 			[]*metallbv1beta1.IPAddressPool{&pA, &pB}[i].Labels = map[string]string{"zone": []string{"a", "b"}[l-1]}
 		}
 	}
+	var extraL2 []metallbv1beta1.L2Advertisement
+	nodeZone := [2]int{}
+	if advSel == 6 {
+		// two L2 advertisements on pool a: the first selects the nodes labelled zone=a, the second every
+		// node; both must be attached unless they select the same nodes (then they are one advertisement)
+		named = []string{"pa"}
+		for i := range nodes {
+			nodeZone[i] = vr.Choose(2)
+			if nodeZone[i] == 1 {
+				nodes[i].Labels = map[string]string{"zone": "a"}
+			}
+		}
+		extraL2 = []metallbv1beta1.L2Advertisement{{ObjectMeta: metav1.ObjectMeta{Name: "l0"},
+			Spec: metallbv1beta1.L2AdvertisementSpec{IPAddressPools: named, NodeSelectors: []metav1.LabelSelector{{MatchLabels: map[string]string{"zone": "a"}}}}}}
+	}
 	res := ClusterResources{
 		Pools: []metallbv1beta1.IPAddressPool{pA, pB},
 		Nodes: nodes,
@@ -138,6 +153,7 @@ func VerifPoolsFor(reps, advSel, dup int) {
 		BGPAdvs: []metallbv1beta1.BGPAdvertisement{{ObjectMeta: metav1.ObjectMeta{Name: "b1"},
 			Spec: metallbv1beta1.BGPAdvertisementSpec{IPAddressPools: named, IPAddressPoolSelectors: poolSel}}},
 	}
+	res.L2Advs = append(extraL2, res.L2Advs...)
 	pools, err := poolsFor(res)
 	if err != nil {
 		vr.Reach("rejected")
@@ -188,9 +204,24 @@ func VerifPoolsFor(reps, advSel, dup int) {
 		vr.Assert(vr.Not(vr.Or(w.has(node4.To16()), w.has(node6))), "an accepted pool contains a node's internal IP")
 	}
 	// attachment of the advertisements: exactly the named pools, all pools when none is named
+	if advSel == 6 {
+		sel := 0
+		for _, z := range nodeZone {
+			sel += z
+		}
+		want := 2
+		if sel == len(nodes) {
+			want = 1 // both advertisements select every node: one and the same advertisement
+		}
+		vr.Assert(len(pa.L2Advertisements) == want && len(pb.L2Advertisements) == 0, "L2 advertisements with different node selections on one pool are not both attached (or attached to another pool)")
+		for _, a := range pa.L2Advertisements {
+			vr.Assert(len(a.Nodes) == 2 || len(a.Nodes) == sel, "an L2 advertisement does not carry exactly the nodes its selectors match")
+		}
+		return
+	}
 	wantA := advSel == 0 || advSel == 1 || advSel == 3
 	wantB := advSel == 0 || advSel == 2 || advSel == 3
-	if advSel >= 4 {
+	if advSel == 4 || advSel == 5 {
 		wantA = labA == 1 || advSel == 5
 		wantB = labB == 1
 	}
